@@ -5,7 +5,7 @@ from ..translate import arith
 SPEC = dict(
     manifest=dict(
         category='proof',
-        text='Lean proves for EVERY tree of ordinary cells (all bit lengths, ref counts, shapes; SHA-256 abstract) that the model of Cell.__init__ is constructible iff depth<=1023 and reports the textbook representation hash/depth at every level, that get_representation hashes to the cached hash, and that ==/__hash__ coincide with hash equality. The model is tied to the code by differential correspondence through 12 construction routes.',
+        text='Lean proves for EVERY tree of ordinary cells (all bit lengths, ref counts, shapes; SHA-256 abstract) that the model of Cell.__init__ is constructible iff depth<=1023 and reports the textbook representation hash/depth at every level, that get_representation hashes to the cached hash, and that ==/__hash__ coincide with hash equality. The model is tied to the code by differential correspondence through 12 construction routes; in addition the descriptor arithmetic (d1, d2) and the depth-limit test are re-translated from cell.py to Lean on every run and proved equal to d1/d2 of the spec and to the descriptors of the hand model for ALL inputs (c01_src_*).',
         level_note='Trusted: Lean kernel (propext, Classical.choice, Quot.sound), Model/Cell.lean as a faithful hand transcription of cell.py/exotic.py (checked only by sampled correspondence: ~29k node observations per quick run incl. every bit-length class and depth 1022-1025 chains), bitarray/hashlib semantics, the Python harness.',
         technique='Lean 4 refinement proof (hand model) + differential correspondence with the library + source-regenerated arithmetic lemmas',
     ),
